@@ -659,6 +659,99 @@ func init() {
 			return e.deepEqual(args[0], args[1], 0)
 		},
 		"time.Sleep": func(e *Engine, fn *ssa.Function, args []Val) Val { e.freeYield("Sleep"); return nil },
+		// reflect.ValueOf / Kind / Len as the planner's count node uses them (the Value carries the boxed operand)
+		"reflect.ValueOf": func(e *Engine, fn *ssa.Function, args []Val) Val {
+			return Agg{F: []Val{args[0], Ptr{}, Int{W: 64}}}
+		},
+		"(reflect.Value).Kind": func(e *Engine, fn *ssa.Function, args []Val) Val {
+			iv, ok := args[0].(Agg).F[0].(Iface)
+			if !ok {
+				unsup("reflect.Value not produced by reflect.ValueOf")
+			}
+			k := 0
+			if iv.T != nil {
+				switch u := iv.T.Underlying().(type) {
+				case *types.Slice:
+					k = 23
+				case *types.Array:
+					k = 17
+				case *types.Map:
+					k = 21
+				case *types.Chan:
+					k = 18
+				case *types.Struct:
+					k = 25
+				case *types.Pointer:
+					k = 22
+				case *types.Interface:
+					k = 20
+				case *types.Signature:
+					k = 19
+				case *types.Basic:
+					switch u.Kind() {
+					case types.Bool:
+						k = 1
+					case types.Int:
+						k = 2
+					case types.Int8:
+						k = 3
+					case types.Int16:
+						k = 4
+					case types.Int32:
+						k = 5
+					case types.Int64:
+						k = 6
+					case types.Uint:
+						k = 7
+					case types.Uint8:
+						k = 8
+					case types.Uint16:
+						k = 9
+					case types.Uint32:
+						k = 10
+					case types.Uint64:
+						k = 11
+					case types.Uintptr:
+						k = 12
+					case types.Float32:
+						k = 13
+					case types.Float64:
+						k = 14
+					case types.String:
+						k = 24
+					default:
+						unsup("reflect.Kind of %s", iv.T)
+					}
+				default:
+					unsup("reflect.Kind of %s", iv.T)
+				}
+			}
+			return Int{W: 64, C: uint64(k)}
+		},
+		"(reflect.Value).Len": func(e *Engine, fn *ssa.Function, args []Val) Val {
+			iv, ok := args[0].(Agg).F[0].(Iface)
+			if !ok {
+				unsup("reflect.Value not produced by reflect.ValueOf")
+			}
+			switch x := iv.V.(type) {
+			case Slice:
+				return Int{W: 64, S: true, C: uint64(x.Len)}
+			case Str:
+				return Int{W: 64, S: true, C: uint64(len(x.B))}
+			case Map:
+				n := 0
+				if x.M != nil {
+					for i := range x.M.keys {
+						if !x.M.dead[i] {
+							n++
+						}
+					}
+				}
+				return Int{W: 64, S: true, C: uint64(n)}
+			}
+			unsup("reflect.Value.Len of %T", iv.V)
+			return nil
+		},
 		"runtime.Gosched": func(e *Engine, fn *ssa.Function, args []Val) Val { e.freeYield("Gosched"); return nil },
 		"runtime.KeepAlive": nop,
 	}
